@@ -75,8 +75,28 @@ func (c *allOfConstraintCompiler) extend(node ischema.Node, schemaNames []string
 		panic(errs.ErrTypeNameNotFoundInAllOfRule.F())
 	}
 
+	// Resolve every named type before the node is touched: the node (which may
+	// be the root of a type object shared with other schemas) must not be left
+	// half extended, with its "allOf" rule still in place, when a later name is
+	// missing here or is not an object.
+	for _, name := range schemaNames {
+		c.resolve(node, name)
+	}
+
 	for _, name := range schemaNames {
 		c.extendWith(node, name)
+	}
+}
+
+// resolve compiles the named type and makes sure it can be inherited from.
+func (c *allOfConstraintCompiler) resolve(node ischema.Node, name string) {
+	lex := node.BasisLexEventOfSchemaForNode()
+	defer lexeme.CatchLexEventErrorWithIncorrectUserType(
+		lex,
+		lex.File().Name(),
+	)
+	if _, ok := c.processType(name).RootNode().(*ischema.ObjectNode); !ok {
+		panic(errs.ErrUnacceptableUserTypeInAllOfRule.F(name))
 	}
 }
 
